@@ -74,7 +74,7 @@ def cb_pkt_len(eng, v):
     return r
 
 
-SPECBUILTINS = {'hsize': sb_hsize, 'interval': sb_interval, 'orig_payload': sb_orig_payload, 'set_union': sb_set_union}
+SPECBUILTINS = {'empty_interval': lambda eng: portion_empty(eng, [], {}), 'hsize': sb_hsize, 'interval': sb_interval, 'orig_payload': sb_orig_payload, 'set_union': sb_set_union}
 CALLBACKS = {'pkt_len': cb_pkt_len}
 
 ASSUMPTIONS = [
@@ -91,15 +91,17 @@ SPECFUNCS = {
                         'r.total_length == length(orig_payload(r.ident)) and length(unwrap(r.data)) == r.total_length and '
                         'unwrap(r.total_valid) == interval(0, r.total_length) and '
                         'forall(i, "Int", implies(contains(unwrap(r.valid), i), 0 <= i and i < r.total_length)) and '
-                        'implies(contains(unwrap(r.valid), 0), r.first_frag is not None and '
-                        'unwrap(r.first_frag).primary is not None and unwrap(unwrap(r.first_frag).primary).bundle_flags >= 0)'),
+                        'implies(contains(unwrap(r.valid), 0), r.first_frag is not None) and '
+                        'implies(r.first_frag is not None, unwrap(r.first_frag).primary is not None and '
+                        'unwrap(unwrap(r.first_frag).primary).bundle_flags >= 0 and '
+                        'unwrap(unwrap(r.first_frag).primary).fragment_offset == 0)'),
     # after this fragment every octet of the original is there
     # (as sets of octet positions: what was valid before, joined with this fragment's range, is the whole payload range)
-    'covered_after': (['s', 'c'], 'forall(i, 0, length(orig_payload(rid(c))), '
-                                  '(old(contains(s._reassembly, rid(c))) and '
-                                  'contains(unwrap(old(lookup(s._reassembly, rid(c)).valid)), i)) or '
-                                  '(npri(c).fragment_offset <= i and i < npri(c).fragment_offset + '
-                                  'length(unwrap(old(lookup(c._block_num, 1).btsd)))))'),
+    'covered_after': (['s', 'c'], 'set_union(ite(old(contains(s._reassembly, rid(c))), '
+                                  'unwrap(old(lookup(s._reassembly, rid(c)).valid)), empty_interval()), '
+                                  'interval(npri(c).fragment_offset, npri(c).fragment_offset + '
+                                  'length(unwrap(old(lookup(c._block_num, 1).btsd))))) == '
+                                  'interval(0, length(orig_payload(rid(c))))'),
     # reassembly records of other bundles keep all their fields
     'entries_untouched': (['s', 'c'], 'forall(r, "Ref[Reassembly]", implies(existed(r) and not (old(contains(s._reassembly, rid(c))) and '
                                       'r == old(lookup(s._reassembly, rid(c)))), r.ident == old(r.ident) and '
@@ -223,14 +225,11 @@ FUNCS = {
     ),
     # ------------------------------------------------------------------------------------------- C06
     'bp.app.fragment:Fragment._reassemble': dict(
-        self=FRAG, params={'ctr': CTR}, returns='Opt[Bool]', props=['C06'], handler=True,
+        # (C10 as well: what is reassembled re-enters through Agent.recv_bundle, i.e. through the seen-identity check)
+        self=FRAG, params={'ctr': CTR}, returns='Opt[Bool]', props=['C06', 'C10'], handler=True,
         # nothing is claimed about the octets of the reassembly buffer (see MANIFEST): buffer writes are opaque
         opaque_slice_store=True,
-        timeout_ms=40000,      # the two coverage clauses take z3 about 11 s each
-        # NOT CLAIMED (C06 is under not_applicable in MANIFEST.json): 15 of 17 obligations discharge; the two coverage
-        # clauses (delivers_once_complete / nothing_delivered_while_octets_missing) are proved by z3 on the dumped
-        # verification conditions (0.6 s with smt.mbqi=false, 11 s default) but not inside the engine's budgeted routing
-        wip=True,
+        solver_route='cli',    # set / interval reasoning: decided by the command-line solvers, stalls in process
         requires=[
             ('wire', 'ctr.bundle.primary is not None and npri(ctr).bundle_flags >= 0', []),
             # (well-formed input) a fragment offered for delivery is a piece of one original payload per identity
@@ -249,6 +248,11 @@ FUNCS = {
                   'pkt:CanonicalBlock.crc_value', 'pkt:PrimaryBlock.bundle_flags', 'pkt:PrimaryBlock.crc_type',
                   'pkt:PrimaryBlock.crc_value', 'ghost.crc_ok'],
         locals={'reassm': 'Opt[Ref[Reassembly]]'},
+        # complete coverage includes octet 0, and the fragment that brought octet 0 was kept as first fragment
+        hints=[dict(label='octet_0_is_there', before='del self._reassembly[final_ident]',
+                    **{'assert': 'contains(unwrap(unwrap(reassm).valid), 0)'}),
+               dict(label='first_fragment_held', before='rctr = BundleContainer()',
+                    **{'assert': 'unwrap(reassm).first_frag is not None'})],
         loops={0: dict(invariant=[('nothing_else', 'ghost.sched_recv == old(ghost.sched_recv) and '
                                                   'not contains(self._reassembly, rid(ctr)) and '
                                                   'forall(k, "List[IdentElem]", implies(not (k == rid(ctr)), '
